@@ -119,6 +119,8 @@ func c11State(s *Store, streams []*LockingStreamer) string {
 	return fmt.Sprintf("%d %d %d", nr, held, open)
 }
 
+var c11LastOps []string // ops of the sequence in progress (for the replay of a panic)
+
 func c11SeqA(t *testing.T, rep *vfReport, r *vfRng, n int) (ops, out []string) {
 	s := c11NewStore(t)
 	defer s.Close()
@@ -127,6 +129,7 @@ func c11SeqA(t *testing.T, rep *vfReport, r *vfRng, n int) (ops, out []string) {
 	emit := func(op, res string) {
 		ops = append(ops, op)
 		out = append(out, res)
+		c11LastOps = ops
 	}
 	replay := func() map[string]interface{} { return map[string]interface{}{"ops": append([]string(nil), ops...)} }
 	var streams []*LockingStreamer
@@ -168,8 +171,14 @@ func c11SeqA(t *testing.T, rep *vfReport, r *vfRng, n int) (ops, out []string) {
 			}
 			j := r.Intn(len(streams))
 			before := c11NR(s)
+			c11LastOps = append(append([]string(nil), ops...), fmt.Sprintf("close %d   <- panicked here", j))
+			wasClosed := streams[j].closed.Is()
 			if err := streams[j].Close(); err != nil {
-				t.Fatalf("close: %v", err)
+				sig := "close-returned-error"
+				if wasClosed {
+					sig = "repeated-close-not-idempotent"
+				}
+				rep.Fail(sig, fmt.Sprintf("Close on stream %d (already closed: %v) returned %v", j, wasClosed, err), replay())
 			}
 			res := "noop"
 			if c11NR(s) == before-1 {
@@ -201,6 +210,7 @@ func c11SeqA(t *testing.T, rep *vfReport, r *vfRng, n int) (ops, out []string) {
 				emit(fmt.Sprintf("read %d %d 1", j, clk), c11ReadClass(l.timedOut.Is()))
 				mnow = clk + 7
 			}
+			c11LastOps = append(append([]string(nil), ops...), fmt.Sprintf("idle %d %d   <- panicked here", j, mnow))
 			l.checkIdle()
 			res := "noop"
 			switch {
@@ -319,6 +329,14 @@ func TestVerifC11(t *testing.T) {
 	rep.Write()
 	rep.OracleFailures = nil
 	defer rep.Write()
+	defer func() {
+		// a panic on the test goroutine (e.g. MultiRSW's "reader count went negative" out of a
+		// second release) is a property failure, not a harness failure
+		if p := recover(); p != nil {
+			rep.Fail("panic:"+fmt.Sprint(p), fmt.Sprintf("the snapshot store panicked: %v", p), map[string]interface{}{"ops": c11LastOps})
+			t.Errorf("panic: %v", p)
+		}
+	}()
 	r := vfNewRng(11)
 	var allOps, allImpl [][]string
 	nA := vfScale(120, 7000)
